@@ -181,7 +181,7 @@ func RunPairReplay(t *testing.T, rf *ReplayFile) *RunResult {
 	var v PairVariant
 	_ = json.Unmarshal([]byte(rf.Variant), &v)
 	spec := RunSpec{Seed: rf.RunSeed, Prop: rf.Property, Tier: rf.Tier, Replay: rf.Streams, MaxScans: rf.MaxScans}
-	if spec.Replay == nil {
+	if spec.Replay == nil && !rf.Generate {
 		spec.Replay = map[string][]uint32{}
 	}
 	return RunPair(t, spec, v, newStats())
